@@ -160,7 +160,7 @@ structure G where
   lockFile : Bool := false
   lock     : Option Nat := none
   sysEmail : Bool := false       -- `git config user.email` of the account running the script is not empty
-  hist     : List Nat := []      -- ghost: numbers made current by `ln -s`, newest first
+  hist     : List Nat := []      -- ghost: the numbers N of every `mv next pN` (with an existing `next`), newest first
   trouble  : Bool := false       -- ghost: a `git clone`, `git commit`, `git pull --no-rebase` or `git push` of the script has failed
   edited   : Bool := false       -- ghost: somebody rewrote the POLICY file by hand (or such a commit was reverted)
   deriving DecidableEq, Repr, Inhabited
@@ -306,14 +306,14 @@ def exec (c : Cmd) (g : G) (p : Proc) : G × Proc × Bool :=
     | none => (g, p, false)
     | some d =>
       match lookupDir g.dirs p.policy with
-      | none => ({ g with dirs := (p.policy, d) :: g.dirs, next := none }, p, true)
+      | none => ({ g with dirs := (p.policy, d) :: g.dirs, next := none, hist := p.policy :: g.hist }, p, true)
       | some e =>
-        if e.nested then (g, p, false)                   -- pN/next exists and is not empty
-        else ({ g with dirs := setNested g.dirs p.policy, next := none }, p, true)
+        if e.nested then ({ g with hist := p.policy :: g.hist }, p, false)   -- pN/next exists and is not empty
+        else ({ g with dirs := setNested g.dirs p.policy, next := none, hist := p.policy :: g.hist }, p, true)
   | .rmCurrent => ({ g with current := none }, p, true)
   | .lnCurrent =>
     match g.current with
-    | none => ({ g with current := some p.policy, hist := p.policy :: g.hist }, p, true)
+    | none => ({ g with current := some p.policy }, p, true)
     | some _ => (g, p, true)                             -- link lands inside the directory `current` points to
   | .rmFailed => ({ g with failed := false }, p, true)
   | .readEmail => (g, { p with email := (g.nextTree.map (·.email)).getD false }, true)
